@@ -1075,6 +1075,8 @@ def rule_G(ctx):
     def same_list(u, v):
         return isinstance(u, list) and isinstance(v, list) and len(u) == len(v) and all(close(a_, b_) if isinstance(b_, float) else a_ == b_ for a_, b_ in zip(u, v))
 
+    bracket_seen = [0]
+
     def run(family, e, target=None):
         env = dict(FEATS)
         env.update(VIRT)
@@ -1100,6 +1102,23 @@ def rule_G(ctx):
             return
         after = snapshot(t)
         show = lambda vs: [None if isn(v) else v for v in vs] if isinstance(vs, list) else repr(vs)
+        # the bracket form track[expression] is the other documented way in: same value (every expression with a single kind of
+        # special character, where the routing to the evaluator hangs on that character alone, and a sample of the others)
+        if target is None and '=' not in text:
+            kinds_ = {c_ for c_ in text if c_ in "+-*/^<>()'"}
+            bracket_seen[0] += 1
+            if len(kinds_) == 1 or (kinds_ and bracket_seen[0] % 5 == 0):      # a text with none of these characters is read as a feature name by the bracket form
+                t2 = mk()
+                counts['bracket form'] = counts.get('bracket form', 0) + 1
+                try:
+                    got2 = t2.call('__getitem__', text)
+                except orders.Unsupported as ex:
+                    raise shape_error('Track[%r] not interpretable: %s' % (text, ex), fo.loc())
+                except (ZeroDivisionError, IndexError, KeyError, TypeError, AttributeError, ValueError, OverflowError, orders.Raised, RecursionError) as ex:
+                    got2 = '%s: %s' % (type(ex).__name__, str(ex)[:160])
+                if not same_list(got2, want):
+                    found.setdefault(('bracket form', 'value'), ('track[expression] returns the value of the expression, as track.operate(expression) does',
+                                                                 {'expression': text, 'track[expression]': show(got2), 'expected': show(want)}))
         if target is None:
             if not same_list(got, want):
                 found.setdefault((family, 'value'), ('the value returned is the value of the same expression tree under ordinary arithmetic (usual precedence, left-to-right, documented operator definitions)',
